@@ -539,6 +539,7 @@ def pred(case, out):
     seen = []
     for b in bad:
         if b not in seen: seen.append(b)
+    seen.sort(key=lambda b: b.startswith("["))          # clauses that are not a known pattern first
     return seen
 
 def _pred_uc(case, out):
@@ -569,6 +570,7 @@ def _pred_uc(case, out):
             if not _close(row[a], want, 1e-7):
                 tag = "[diag-zero:%s:uc] " % scheme if _diag_pattern(scheme, c) else ""
                 bad.append("%sUC of cross %s trait %d: reported %r, mean + i*sqrt(enumerated variance) = %r" % (tag, list(c), a, row[a], want))
+    bad.sort(key=lambda b: b.startswith("["))
     return bad
 
 def _norm_ppf(q):
@@ -677,3 +679,52 @@ def emit_case(case, out):
           ("three", "var"): ("qclose_l4", "threeway_var S %s" % G0), ("three", "cov"): ("qclose_l5", "threeway_cov S %s" % G0),
           ("four", "var"): ("qclose_l5", "fourway_var S %s" % G0), ("di", "var"): ("qclose_lll", "dihybrid_var S %s %s" % (G0, G1))}[(scheme, kind)]
     return head + "%s %s (%s %s %s))" % (fn[0], impl, fn[1], E.nat(n), E.nat(t))
+
+def _drop_locus(case, j):
+    c = dict(case)
+    sizes, s0 = list(case["sizes"]), 0
+    for k, s in enumerate(sizes):
+        if s0 <= j < s0 + s:
+            sizes[k] -= 1; break
+        s0 += s
+    c["sizes"] = [s for s in sizes if s > 0]
+    for key in ("hap0", "hap1"): c[key] = [r[:j] + r[j + 1:] for r in case[key]]
+    c["pos"] = case["pos"][:j] + case["pos"][j + 1:]; c["u"] = case["u"][:j] + case["u"][j + 1:]
+    return c
+
+def _drop_taxon(case, i):
+    c = dict(case)
+    for key in ("hap0", "hap1"): c[key] = case[key][:i] + case[key][i + 1:]
+    c["perm"] = list(range(len(c["hap0"])))
+    return c
+
+def shrink(case, fails):
+    """greedy: one trait, fewer taxa, fewer loci, simpler options — while the predicate still fails"""
+    cur = dict(case)
+    def novel(c):
+        # a failure that is not (only) a known finding: some clause without a known-pattern tag
+        try: o = run_impl(c)
+        except BaseException as e: o = {"exc": type(e).__name__, "msg": str(e)[:200]}
+        cl = pred(c, o)
+        return bool(cl) and classify(c, o, cl) is None
+    if not novel(cur): return cur
+    def attempt(c):
+        nonlocal cur
+        try:
+            if novel(c):
+                cur = c; return True
+        except Exception:
+            pass
+        return False
+    if len(cur["u"][0]) > 1 and cur["kind"] != "cov":
+        attempt(dict(cur, u=[r[:1] for r in cur["u"]], beta=cur["beta"][:1]))
+    i = 0
+    while len(cur["hap0"]) > 1 and i < len(cur["hap0"]):
+        if not attempt(_drop_taxon(cur, i)): i += 1
+    j = 0
+    while len(cur["pos"]) > 1 and j < len(cur["pos"]):
+        if not attempt(_drop_locus(cur, j)): j += 1
+    for key, val in (("mem", None), ("nself", 0), ("via", "algmod"), ("posmode", "ln2")):
+        if cur.get(key) != val and not (key == "via" and cur["kind"] == "uc"):
+            attempt(dict(cur, **{key: val}))
+    return cur
